@@ -268,6 +268,21 @@ def check(run):
     nab = aborted_completion_rule(run, H, H + '::close_connection', {H + '::close_connection', H + '::error', H + '::write_server_send_buffer', H + '::open_forward_connection'}, skip=('on_accept',))
     if nab < 6:
         run.broke('only %d completions bound by http_proxy found (on_read_request, on_domain_lookup, on_connected, on_server_write, on_server_receive, on_server_forward, on_error_sent)' % nab)
+    run.clause('a request that fits the buffer is served: the "request too large" refusal is decided only after every complete request has been taken out of the buffer (a request of exactly the buffer size is complete, not too large)')
+    orr_ = f('on_read_request')
+    finds_ = [c for c in orr_.calls() if q.callee_name(c) == 'sim::find_request_len']
+    full_closes = [c for c in orr_.calls() if q.callee_name(c) == H + '::close_connection' and
+                   any('m_num_client_in_bytes' in q.render(orr_, a_) and 'sizeof' in q.render(orr_, a_) and p_ for a_, p_ in q.guards_at(orr_, c))]
+    if not finds_ or not full_closes:
+        run.broke('on_read_request: find_request_len calls (%d) or the full-buffer refusal (%d) not found' % (len(finds_), len(full_closes)))
+    for c in full_closes:
+        after = [x for x in finds_ if orr_.cfg._reaches(orr_.cfg.node_block(c), orr_.cfg.node_block(x))]
+        # (the refusal itself returns; what matters is that the TEST sits after the extraction loop)
+        tests = [a_ for a_, p_ in q.guards_at(orr_, c) if 'm_num_client_in_bytes' in q.render(orr_, a_) and 'sizeof' in q.render(orr_, a_)]
+        early = [x for x in finds_ for t_ in tests if orr_.cfg.node_block(t_) is not None and orr_.cfg._reaches(orr_.cfg.node_block(t_), orr_.cfg.node_block(x)) and not orr_.cfg._reaches(orr_.cfg.node_block(x), orr_.cfg.node_block(t_))]
+        run.check(q.any_precedes(orr_, finds_, c) and not early, 'R4', 'refuse-only-what-holds-no-request', H + '::on_read_request', orr_.loc(c),
+                  'the full-buffer refusal is tested before the buffer has been searched for complete requests: a request that exactly fills the buffer (65536 bytes) is closed without a reply although it is complete and well-formed',
+                  'the full-buffer test follows the extraction of every complete request')
     run.clause('the proxy never spins on a full request buffer: a read into the remaining room is issued only when there is room')
     if engines.reads_never_empty(run, [g_ for g_ in fx.repo_functions() if g_.file.endswith('http_proxy.cpp')], inst='read-has-room') < 1:
         run.broke('http_proxy.cpp: no read of a computed length found (on_read_request reads into sizeof(buffer) - count)')
